@@ -393,9 +393,13 @@ class Hist:
         d = self.deadline(rec)
         return d is None or d > t
 
-    def expected_paused(self, i: dict, t: float) -> bool:
+    def blockers(self, i: dict, t: float) -> frozenset:
         st, _ = self.status_at(t)
-        return any(k != i["identity"] and self.live(r, t) and r.get("priority", 0) >= i["priority"] for k, r in st.items())
+        return frozenset(k for k, r in st.items()
+                         if k != i["identity"] and self.live(r, t) and r.get("priority", 0) >= i["priority"])
+
+    def expected_paused(self, i: dict, t: float) -> bool:
+        return bool(self.blockers(i, t))
 
     def change_points(self, t0: float, t1: float) -> list[float]:
         """Moments in (t0, t1] where the status or some record's liveness changes."""
@@ -491,11 +495,11 @@ def oracle_history(ctx: Ctx, sc: dict, tr: dict, full: bool = False) -> dict:
             if not (t_from + H.W < tc < t_to):
                 continue
             pts = [tc - H.W] + H.change_points(tc - H.W, tc)
-            vals = {H.expected_paused(i, p) for p in pts} | {H.expected_paused(i, tc)}
+            vals = {H.blockers(i, p) for p in pts} | {H.blockers(i, tc)}
             if len(vals) != 1:
-                continue
+                continue            # who blocks this operator changed within the last W: it may still be reacting
             stats["settled_points"] += 1
-            want = vals.pop()
+            want = bool(vals.pop())
             got = H.paused_at(i["inc"], tc)
             if got != want:
                 fail(f"t={tc}: for the last {H.W} s a live peer of priority >= {i['priority']} "
